@@ -538,7 +538,7 @@ fn pick_kind(rng: &mut Rng, sw: &Swarm) -> usize {
 }
 
 /// Kinds through which an invalid tuple reaches the month memo (or an outer check) as a refusal.
-fn fault_kind(rng: &mut Rng, class: u8) -> usize {
+pub fn fault_kind(rng: &mut Rng, class: u8) -> usize {
   let names: &[&str] = match class {
     3 => &["LM.from_ym", "LM.from_ym", "LD.new", "LD.get", "LH.get", "LW.from_ym", "LF.ymd", "LM.days", "LM.next", "LH.new"],
     2 => &["LD.new", "LD.get", "LH.get", "LD.next", "SD.new", "LF.ymd"],
@@ -550,7 +550,7 @@ fn fault_kind(rng: &mut Rng, class: u8) -> usize {
 /// A request whose computation panics inside one of the two provider critical sections
 /// (class 4: eight-char provider, class 5: child-limit provider). These are valid or
 /// range-edge public calls: instants in the first days of AD 1, child limits ending after 9999.
-fn provider_fault(rng: &mut Rng) -> (Query, u8) {
+pub fn provider_fault(rng: &mut Rng) -> (Query, u8) {
   if rng.chance(1, 2) {
     let d = rng.range(1, 4);
     let (h, mi, s) = (rng.range(0, 23), *rng.pick(&[0i64, 30]), 0);
